@@ -30,6 +30,18 @@
       (`C14_project_ignored_import_callee_resolves_to_none`).
       `C14_project_full` (the project is unchanged) is false: the sets of an IMPORTED function that
       has a resolvable call grow (`C14_cex_import_mutation`).
+    * LOCATED names (`RattrModel.Provenance`: every name carries the place it was written, which `Name`
+      equality ignores and `-o ir` prints): the located engine refines the plain one
+      (`C14_located_refines`); for ALL programs every location found in a function's sets after
+      generation — and in the results of a root — was before generation the location of a member of the
+      same set of a function REACHABLE from it through resolvable calls (`C14_located_provenance`,
+      `C14_located_results_provenance`); a function without a resolvable call only ever holds its own
+      (`C14_located_leaf_own_locations`). `C14_located_twin_witness` evaluates the witness of the
+      reviewers' memoised-`unbind_name` change (twin callees in two files).
+    * Tie A (`Generated.C14.memoised`): every memoised function of rattr is on the model's allow-list
+      `Provenance.pureMemo`, none of which lives in a package that builds or transforms IR objects
+      (`C14_tieA_memoised`, `C14_tieA_no_memoised_ir_function`): fresh FileIr objects per analysis and a
+      fresh `Name` per `unbind_name` call are what the two statements above rest on.
 -/
 import RattrProofs.Lemmas.Results
 import RattrProofs.Lemmas.ResultsCex
@@ -39,6 +51,9 @@ import RattrProofs.Lemmas.ResultsTreeCheck
 import RattrProofs.Lemmas.ResultsLeaf
 import RattrProofs.Lemmas.ResultsProject
 import RattrProofs.Lemmas.ResultsProjectCex
+import RattrProofs.Lemmas.ResultsProvenance
+import RattrProofs.Lemmas.ResultsProvenanceErase
+import RattrModel.Generated.C14
 
 namespace Rattr.C14
 open Rattr Rattr.Results Rattr.Cex
@@ -372,5 +387,90 @@ resolvable call while its imported `chain` has one. -/
 example : (irsAfter projChain).isSome ∧ IsLeaf (toProg projChain) 1 ∧ ¬ IsLeaf (toProg projChain) 2 := by
   unfold IsLeaf
   decide +kernel
+
+/-! ### Located names: provenance of what result generation folds into an IR -/
+
+open Rattr.Provenance in
+/-- The located engine refines the plain engine (the one tied to the implementation by the differential
+check): erase the locations and the outcome, the results and the store are those of `generate`. -/
+theorem C14_located_refines {L : Type} (P : Prog) (order : List Key) (σ : LStore L) :
+    eraseOut (generateL P order σ) = generate P order (eraseStore σ) :=
+  generateL_erase P order σ
+
+open Rattr.Provenance in
+/-- For ALL programs: after result generation, every location found in a set of a function `f` was,
+before generation, the location of a member of the same set of a function reachable from `f` through
+resolvable calls. (The known defect adds names to `f`'s IR; it never makes the IR point to a place `f`
+has nothing to do with.) -/
+theorem C14_located_provenance {L : Type} (P : Prog) (order : List Key) (σ σ' : LStore L)
+    (rs : List (Key × LSets L)) (h : generateL P order σ = .ok (rs, σ')) :
+    ∀ f k x, x ∈ (σ' f).get k → ∃ g, Reach P f g ∧ ∃ y ∈ (σ g).get k, y.loc = x.loc :=
+  generateL_prov P σ order σ σ' rs (Provenanced.refl P σ) h
+
+open Rattr.Provenance in
+/-- … and so are the results reported for every root. -/
+theorem C14_located_results_provenance {L : Type} (P : Prog) (order : List Key) (σ σ' : LStore L)
+    (rs : List (Key × LSets L)) (h : generateL P order σ = .ok (rs, σ')) :
+    ∀ p ∈ rs, ∀ k x, x ∈ p.2.get k → ∃ g, Reach P p.1 g ∧ ∃ y ∈ (σ g).get k, y.loc = x.loc :=
+  generateL_results_prov P σ order σ σ' rs (Provenanced.refl P σ) h
+
+open Rattr.Provenance in
+/-- A function none of whose calls resolves only ever holds locations of its own accesses. -/
+theorem C14_located_leaf_own_locations {L : Type} (P : Prog) (order : List Key) (σ σ' : LStore L)
+    (rs : List (Key × LSets L)) (h : generateL P order σ = .ok (rs, σ')) (f : Key) (hf : IsLeaf P f) :
+    ∀ k x, x ∈ (σ' f).get k → ∃ y ∈ (σ f).get k, y.loc = x.loc := by
+  intro k x hx
+  obtain ⟨g, hr, y, hy, e⟩ := C14_located_provenance P order σ σ' rs h f k x hx
+  have := Reach.of_leaf hf hr
+  subst this
+  exact ⟨y, hy, e⟩
+
+namespace Twin
+open Rattr.Provenance
+
+/-- The reviewers' witness (seeded change: `@cache` on `unbind_name`): `north_value(probe)` calls
+`read_north(sensor)`, `south_value(probe)` calls `read_south(sensor)`; both callees read `sensor.value`, at
+different places (location 1 = north.py, 2 = south.py; 10 / 11 = the callers' own `probe`). -/
+def P : Prog := {
+  fns := [ ⟨iface ["probe"], [call 0 "read_north" ["probe"]]⟩, ⟨iface ["probe"], [call 1 "read_south" ["probe"]]⟩,
+           ⟨iface ["sensor"], []⟩, ⟨iface ["sensor"], []⟩ ],
+  resolve := fun c => match c with | 0 => some 2 | 1 => some 3 | _ => none }
+
+def σ₀ : LStore Nat := fun k => match k with
+  | 0 => ⟨[⟨nm "probe" "probe", 10⟩], [], []⟩
+  | 1 => ⟨[⟨nm "probe" "probe", 11⟩], [], []⟩
+  | 2 => ⟨[⟨nm "sensor.value" "sensor", 1⟩], [], []⟩
+  | 3 => ⟨[⟨nm "sensor.value" "sensor", 2⟩], [], []⟩
+  | _ => ⟨[], [], []⟩
+
+def getsAfter (f : Key) : List (Str × Nat) :=
+  match generateL P [0, 1] σ₀ with
+  | .ok (_, σ') => (σ' f).gets.map (fun x => (x.n.full, x.loc))
+  | _ => []
+
+end Twin
+
+/-- (a test on one literal program) In the model of the pinned code each caller's folded `probe.value`
+carries the location of ITS callee's access: 1 for `north_value`, 2 for `south_value`. -/
+theorem C14_located_twin_witness :
+    Twin.getsAfter 0 = [(s "probe", 10), (s "probe.value", 1)]
+    ∧ Twin.getsAfter 1 = [(s "probe", 11), (s "probe.value", 2)] := by
+  decide
+
+/-! ### Tie A: nothing that builds or transforms IR objects is memoised -/
+
+/-- Every memoised function in today's source is on the model's allow-list: a new cache breaks this until
+somebody says why it cannot hand out an IR object (or a `Name`) that was built for something else. -/
+theorem C14_tieA_memoised : ∀ x ∈ Generated.C14.memoised, x ∈ Provenance.pureMemo := by
+  decide
+
+/-- … and the allow-list has no stale rows. -/
+theorem C14_tieA_memoised_no_stale : ∀ x ∈ Provenance.pureMemo, x ∈ Generated.C14.memoised := by
+  decide
+
+/-- No allowed memoised function lives in a package that builds or transforms IR objects. -/
+theorem C14_tieA_no_memoised_ir_function :
+    ∀ x ∈ Provenance.pureMemo, ∀ p ∈ Provenance.irPackages, (p.toList.isPrefixOf x.1.toList) = false := by
+  decide
 
 end Rattr.C14
